@@ -19,6 +19,7 @@ import (
 	"github.com/flant/kube-client/fake"
 	"github.com/flant/kube-client/manifest"
 	"github.com/flant/shell-operator/pkg/hook/types"
+	kem "github.com/flant/shell-operator/pkg/kube_events_manager"
 	metricstorage "github.com/flant/shell-operator/pkg/metric_storage"
 	shell_operator "github.com/flant/shell-operator/pkg/shell-operator"
 	"github.com/flant/shell-operator/pkg/task/queue"
@@ -293,8 +294,46 @@ func c01OpRun(c *Case, rng *Rng, cfg c01OpCfg, initial, duringSync [][]c01Ev, af
 		c.Inconcl = "Synchronization did not finish"
 		return
 	}
-	deadline := time.Now().Add(25 * time.Second)
+	// A sentinel object created last: events of one informer and tasks of one queue are FIFO, so
+	// once the hook has seen the sentinel every earlier change has been handed over as well.
+	sentinel := false
+	for _, t := range cfg.types {
+		if t == "a" {
+			sentinel = true
+		}
+	}
+	if sentinel && !apply([]c01Ev{{99, "a", 999}}) {
+		return
+	}
+	// Do not read snapshots before the binding is unlocked: a Snapshot() of a still-locked binding
+	// by anyone but its Synchronization run drops the buffered events (recorded finding R3) — the
+	// harness must not cause that itself.
+	monID := hk.GetConfig().OnKubernetesEvents[0].Monitor.Metadata.MonitorId
+	unlockDeadline := time.Now().Add(30 * time.Second)
+	for {
+		mon := op.KubeEventsManager.GetMonitor(monID)
+		if mon != nil {
+			_, statics, _, _ := kem.VerifMonitorState(mon)
+			all := len(statics) > 0
+			for _, en := range statics {
+				all = all && en
+			}
+			if all {
+				break
+			}
+		}
+		if time.Now().After(unlockDeadline) {
+			c.Inconcl = "binding was not unlocked after the successful Synchronization"
+			return
+		}
+		time.Sleep(3 * time.Millisecond)
+	}
+	deadline := time.Now().Add(60 * time.Second)
 	stable := 0
+	need := 8
+	if !sentinel {
+		need = 80 // no marker available: require a long quiet period instead
+	}
 	var execs []c01OpExec
 	for {
 		if time.Now().After(deadline) {
@@ -321,7 +360,20 @@ func c01OpRun(c *Case, rng *Rng, cfg c01OpCfg, initial, duringSync [][]c01Ev, af
 			}
 		}
 		ex, err := c01ReadExecs(logDir)
-		if err != nil || busy || c01StateStr(snap) != c01StateStr(truth) || len(ex) != len(execs) {
+		seen := !sentinel
+		if err == nil {
+			for _, e := range ex {
+				for _, ev := range e.events {
+					if ev.id == 99 {
+						seen = true
+					}
+				}
+				if strings.Contains(e.kinds, "G") && e.view[99] == 999 {
+					seen = true
+				}
+			}
+		}
+		if err != nil || busy || !seen || c01StateStr(snap) != c01StateStr(truth) || len(ex) != len(execs) {
 			stable = 0
 			if err == nil {
 				execs = ex
@@ -329,7 +381,7 @@ func c01OpRun(c *Case, rng *Rng, cfg c01OpCfg, initial, duringSync [][]c01Ev, af
 			continue
 		}
 		stable++
-		if stable >= 8 {
+		if stable >= need {
 			break
 		}
 	}
@@ -346,6 +398,9 @@ func c01OpRun(c *Case, rng *Rng, cfg c01OpCfg, initial, duringSync [][]c01Ev, af
 	c.Oracle(fmt.Sprintf("op-nobefore sync=%s runs=%s", first, joinStrs(runs)))
 	c.Note(fmt.Sprintf("op:execs=%d", len(execs)))
 	if cfg.group != "" {
+		if len(cfg.types) != 3 {
+			return // a change that does not pass the event-type filter need not be followed by a Group execution
+		}
 		last := map[int]int{}
 		for _, e := range execs {
 			if e.view != nil {
